@@ -160,6 +160,21 @@ impl<'a> ZoneHydrator<'a> {
             }
         }
 
+        // Zones produced by index pruners carry no uid. When they are mixed with uid-tagged
+        // fallback zones the per-uid loaders above skip them, so load them with the plan's
+        // event type, as the single-type path does.
+        if candidate_zones.iter().any(|z| z.uid().is_some())
+            && candidate_zones.iter().any(|z| z.uid().is_none())
+        {
+            if let Some(uid) = self.plan.event_type_uid().await {
+                let loader = ZoneValueLoader::new(self.plan.segment_base_dir.clone(), uid)
+                    .with_caches(self.caches);
+                for zone in candidate_zones.iter_mut().filter(|z| z.uid().is_none()) {
+                    loader.load_zone_values(std::slice::from_mut(zone), &columns);
+                }
+            }
+        }
+
         if tracing::enabled!(tracing::Level::DEBUG) {
             debug!(target: "sneldb::query", "Candidate zones: {:?}", candidate_zones.len());
         }
